@@ -83,6 +83,26 @@ func init() {
 				{src: "claims.Iat", name: "claims_Iat", typ: "int64"},
 				{src: "claims.Exp", name: "claims_Exp", typ: "int64"},
 				{src: "now", name: "now", typ: "time.Time"}}}},
+			{dir: "jwt", name: "checkHeader", cfg: transCfg{params: []pspec{
+				{src: "got.KeyID", name: "got_KeyID", typ: "string"}, {src: "got.Alg", name: "got_Alg", typ: "string"},
+				{src: "got.Typ", name: "got_Typ", typ: "string"},
+				{src: "want.KeyID", name: "want_KeyID", typ: "string"}, {src: "want.Alg", name: "want_Alg", typ: "string"},
+				{src: "want.Typ", name: "want_Typ", typ: "string"}}}},
+			{dir: "jwt", name: "CheckClaimSet", cfg: transCfg{params: []pspec{
+				{src: "claims", name: "claims_nil", typ: tNilness}, {src: "tmpl", name: "tmpl_nil", typ: tNilness},
+				{src: "claims.Iss", name: "claims_Iss", typ: "string"}, {src: "claims.Aud", name: "claims_Aud", typ: "string"},
+				{src: "claims.Typ", name: "claims_Typ", typ: "string"}, {src: "claims.Sub", name: "claims_Sub", typ: "string"},
+				{src: "claims.Scope", name: "claims_Scope", typ: "string"},
+				{src: "tmpl.Iss", name: "tmpl_Iss", typ: "string"}, {src: "tmpl.Aud", name: "tmpl_Aud", typ: "string"},
+				{src: "tmpl.Typ", name: "tmpl_Typ", typ: "string"}, {src: "tmpl.Sub", name: "tmpl_Sub", typ: "string"},
+				{src: "tmpl.Scope", name: "tmpl_Scope", typ: "string"}}}},
+			// the window a constructor stores: |w|
+			{dir: "signer", name: "NewTimeSigner", cfg: transCfg{
+				coqName: "gen_signer_NewTimeSigner_window", retField: "window", results: []string{"time.Duration"},
+				params: []pspec{{src: "window", name: "window", typ: "time.Duration"}}}},
+			{dir: "signer", name: "NewRSATimeSigner", cfg: transCfg{
+				coqName: "gen_signer_NewRSATimeSigner_window", retField: "window", results: []string{"time.Duration"},
+				params: []pspec{{src: "w", name: "w", typ: "time.Duration"}}}},
 			{dir: "roles", name: "subtleStringEq"},
 			{dir: "roles", name: "checkPassCode", cfg: transCfg{params: []pspec{
 				{src: "claim", name: "claim", typ: "string"},
